@@ -257,7 +257,8 @@ class RF24:
             raise ValueError("address length cannot be 0")
         if pipe_number < 2:
             if not pipe_number:
-                self._pipe0_read_addr = address
+                # keep a copy, not the caller's (mutable) buffer
+                self._pipe0_read_addr = bytearray(address)
             for i, val in enumerate(address):
                 self._pipes[pipe_number][i] = val  # type: ignore[assignment, index]
             self._reg_write_bytes(RX_ADDR_P0 + pipe_number, address)
